@@ -17,7 +17,8 @@
 (*   _modified_b64encode  -> B64Enc (Py7 = what str.encode('utf-7') emits,  *)
 (*                           Strip = [1:-1])                                *)
 (*   modutf7_decode       -> Decode (Dec, the two-mode loop; an unterminated *)
-(*                           shift never returns: status "hang")            *)
+(*                           shift is decoded as the final shift since the  *)
+(*                           fix a67d1aa: status "inexact")                 *)
 (*                                                                         *)
 (* Law: Decode(Encode(n)) = n for every name n, and the encoded form is     *)
 (* well-formed modified UTF-7 (every shift is AMP, one base64 text, DASH).  *)
@@ -82,16 +83,15 @@ Enc(n, i, st) ==
 Encode(n) == Enc(n, 1, 0)
 
 ---------------------------------------------------------------------------
-(* modutf7_decode.  Result: [out, st] with st in ok | hang | inexact (the    *)
-(* shift content is not one base64 text: what Python's utf-7 decoder makes   *)
-(* of it is not modelled)                                                    *)
+(* modutf7_decode.  Result: [out, st] with st in ok | inexact (the shift     *)
+(* content is not one base64 text: what Python's utf-7 decoder makes of it - *)
+(* other characters or UnicodeDecodeError - is not modelled)                 *)
 IsLit(t, c) == t.k = "lit" /\ t.c = c
 
 FindDash(ts, i) == LET I == {j \in i..Len(ts) : IsLit(ts[j], "DASH")}
                    IN IF I = {} THEN 0 ELSE CHOOSE j \in I : \A x \in I : j <= x
 
-Worse(a, b) == IF "hang" \in {a, b} THEN "hang"
-               ELSE IF "inexact" \in {a, b} THEN "inexact" ELSE "ok"
+Worse(a, b) == IF "inexact" \in {a, b} THEN "inexact" ELSE "ok"
 
 RECURSIVE Dec(_, _, _)
 Dec(ts, i, shift) ==
@@ -110,7 +110,7 @@ Dec(ts, i, shift) ==
          IN [out |-> <<"CH">> \o r.out, st |-> Worse("inexact", r.st)]
   ELSE
     LET j == FindDash(ts, i) IN
-    IF j = 0 THEN [out |-> <<>>, st |-> "hang"]     \* for-loop finds no "-": buf unchanged, forever
+    IF j = 0 THEN [out |-> <<>>, st |-> "inexact"]  \* no "-": the rest is the final shift
     ELSE LET content == SubSeq(ts, i, j - 1)
              r == Dec(ts, j + 1, FALSE)
          IN IF Len(content) = 1 /\ content[1].k = "b64"
